@@ -40,6 +40,10 @@ type Run struct {
 	Sample    any
 
 	Viol *Violation
+	// KnownSet holds the signatures listed in known_findings.json for this property (passed by
+	// the runner); KnownHit the ones that manifested in this run.
+	KnownSet map[string]bool
+	KnownHit map[string]int
 	// Known collects signatures of known findings that manifested (run continues).
 	start time.Time
 }
@@ -80,6 +84,18 @@ func (r *Run) Fail(check, sig, format string, args ...any) {
 	msg := fmt.Sprintf(format, args...)
 	r.Viol = &Violation{Check: check, Msg: msg, Sig: sig}
 	r.Logf("VIOLATION %s: %s", check, msg)
+}
+
+// IsKnown tells whether the signature is a listed known finding.
+func (r *Run) IsKnown(sig string) bool { return r.KnownSet[sig] }
+
+// NoteKnown records that a listed known finding manifested; the run goes on.
+func (r *Run) NoteKnown(sig string) {
+	if r.KnownHit == nil {
+		r.KnownHit = map[string]int{}
+	}
+	r.KnownHit[sig]++
+	r.Logf("KNOWN-FINDING %s", sig)
 }
 
 // Failed tells whether a violation was recorded.
